@@ -338,6 +338,86 @@ func runC10(r *engine.Run) {
 		}
 	})
 
+	// guarded payload buffers: the frame's FOpts / FRMPayload bytes are sub-slices with
+	// spare capacity inside guarded arenas; no operation may write outside them,
+	// and none of the operations below may change the caller's buffers at all
+	// (the Encrypt* methods work on their own copy and swap in a new payload)
+	gOps := []string{"MarshalBinary", "MarshalText", "ValidateUplinkDataMIC", "ValidateUplinkDataMICF", "SetUplinkDataMIC", "EncryptFRMPayload", "DecryptFRMPayload", "EncryptFOpts", "MarshalJSON"}
+	gLens := []int{0, 1, 15, 16, 17, 32, 33}
+	spG := (&engine.Space{}).Dim("op", len(gOps)).Dim("frm first element length", len(gLens)).Dim("frm elements{1,2}", 2).Dim("fopts length{0,3,15}", 3).Dim("spare capacity{0,1,40}", 3)
+	r.PartDims("guarded-payload-buffers", spG.Desc(), spG.N(), func(c *engine.Case) {
+		var ch [5]int
+		spG.Decode(c.Index, ch[:])
+		spare := []int{0, 1, 40}[ch[4]]
+		type buf struct {
+			arena  []byte
+			off, n int
+		}
+		var bufs []*buf
+		mk := func(n int, seed byte) []byte {
+			b := &buf{arena: make([]byte, 8+n+spare), off: 8, n: n}
+			for i := range b.arena {
+				b.arena[i] = 0xC3 ^ byte(i)
+			}
+			copy(b.arena[8:], fillBytes(n, seed))
+			bufs = append(bufs, b)
+			return b.arena[8 : 8+n : 8+n+spare]
+		}
+		port := uint8(7)
+		mp := &lorawan.MACPayload{FHDR: lorawan.FHDR{DevAddr: lorawan.DevAddr{1, 2, 3, 4}, FCnt: 5}, FPort: &port}
+		if n := []int{0, 3, 15}[ch[3]]; n > 0 {
+			mp.FHDR.FOpts = []lorawan.Payload{&lorawan.DataPayload{Bytes: mk(n, 0x21)}}
+		}
+		if n := gLens[ch[1]]; n > 0 || ch[2] == 1 {
+			mp.FRMPayload = []lorawan.Payload{&lorawan.DataPayload{Bytes: mk(n, 0x42)}}
+			if ch[2] == 1 {
+				mp.FRMPayload = append(mp.FRMPayload, &lorawan.DataPayload{Bytes: mk(5, 0x63)})
+			}
+		}
+		p := lorawan.PHYPayload{MHDR: lorawan.MHDR{MType: lorawan.ConfirmedDataUp}, MACPayload: mp}
+		var snaps [][]byte
+		for _, b := range bufs {
+			snaps = append(snaps, append([]byte(nil), b.arena...))
+		}
+		k := keyOf(c05KeyA)
+		op := gOps[ch[0]]
+		switch op {
+		case "MarshalBinary":
+			p.MarshalBinary()
+		case "MarshalText":
+			p.MarshalText()
+		case "ValidateUplinkDataMIC":
+			p.ValidateUplinkDataMIC(lorawan.LoRaWAN1_1, 1, 2, 3, k, k)
+		case "ValidateUplinkDataMICF":
+			p.ValidateUplinkDataMICF(k)
+		case "SetUplinkDataMIC":
+			p.SetUplinkDataMIC(lorawan.LoRaWAN1_1, 1, 2, 3, k, k)
+		case "EncryptFRMPayload":
+			p.EncryptFRMPayload(k)
+		case "DecryptFRMPayload":
+			p.DecryptFRMPayload(k)
+		case "EncryptFOpts":
+			p.EncryptFOpts(k)
+		case "MarshalJSON":
+			p.MarshalJSON()
+		}
+		c.NonTrivial()
+		for i, b := range bufs {
+			for q := range b.arena {
+				if b.arena[q] != snaps[i][q] {
+					where := "inside the caller's slice"
+					key := "guarded-buffers/" + op + "/caller-buffer-modified"
+					if q < b.off || q >= b.off+b.n {
+						where = fmt.Sprintf("outside the slice (offset %d relative to its start, length %d)", q-b.off, b.n)
+						key = "guarded-buffers/" + op + "/write-outside-slice"
+					}
+					c.Fail(key, fmt.Sprintf("%s on a frame whose payload element %d is a %d-byte sub-slice with %d bytes of spare capacity wrote %s", op, i, b.n, spare, where), nil)
+					break
+				}
+			}
+		}
+	})
+
 	// ---- (c) reuse histories
 	types := c10ReuseTypes()
 	r.Extra("reuse_types", len(types))
